@@ -155,8 +155,25 @@ pub fn shard_range(total: u64, k: u32, n: u32) -> (u64, u64) {
 
 // --- container level ----------------------------------------------------------------------
 
+/// The diagnostics level passed to the library: a pure function of the file (so a replay needs
+/// nothing extra). 13 of 16 files use 0 (what the wrappers and the CLI pass), the rest 1, 2 or 9:
+/// the level is an argument of the public function, and the listed properties quantify over it.
+pub fn loglevel_for(file: &[u8]) -> u32 {
+    if file.len() > (4 << 20) {
+        // the library prints whole plaintexts at these levels
+        return 0;
+    }
+    match crate::dna::fnv64(file) % 16 {
+        0 => 1,
+        1 => 2,
+        2 => 9,
+        _ => 0,
+    }
+}
+
 pub fn lib_expand(file: &[u8]) -> Result<Result<Vec<u8>, LibErr>, Caught> {
-    guard(|| preflate_rs::expand_zlib_chunks(file, 0).map_err(|e| err_info(&e)))
+    let ll = loglevel_for(file);
+    guard(|| preflate_rs::expand_zlib_chunks(file, ll).map_err(|e| err_info(&e)))
 }
 
 pub fn lib_recreate(container: &[u8]) -> Result<Result<Vec<u8>, LibErr>, Caught> {
